@@ -167,3 +167,9 @@ Example ex_reader :
   JsonText.parse_text StdJson ex_numval (b " { ""aA\n"" : [ 7 , true , null , ""😀"" ] } ")
   = PTree (JObj [([97; 65; 10]%N, JArr [JNum seven; JBool true; JNull; JStr [240; 159; 152; 128]%N])]).
 Proof. vm_compute. reflexivity. Qed.
+
+(** valid UTF-8 is clean for encoding/json, a stray continuation byte or a surrogate encoded in UTF-8 is not *)
+Example ex_utf8 :
+  JsonTextProofs.sclean StdJson (b "é😀 日本") = true /\
+  JsonTextProofs.sclean StdJson [97; 255]%N = false /\ JsonTextProofs.sclean StdJson [237; 160; 128]%N = false.
+Proof. repeat split; vm_compute; reflexivity. Qed.
